@@ -11,7 +11,7 @@ ANCHOR_PREFIXES = ["transform::Transformer::write_root_svg", "transform::process
                    "transform_attr::", "path::", "types::split_unit"]
 BOUNDS = ("root <svg> with every subset of {width, height, viewBox} supplied (concrete values), 1-3 top-level children from {rect, circle, ellipse, line, polyline, polygon, path (M L H V Z abs/rel, relative commands after z, several subpaths), "
           "standalone text, box, point, g with translate (symbolic) / scale (0.5, 2, 0.5x2, -1x2, 1x3, 3x1, 1x1, 2x2, one-argument, -1, 1x-2, -2x1, translate+1x3) nested once, use of a shape, use of a symbol, "
-          "shape or group with clip-path (clipPath in defs, before or after its use), defs/specs/symbol content, shape with generated text}; border in {0,3,5}, scale in {0.5,1,2}; positions k/2 in [-256,256], sizes k/2 in [0,128]")
+          "shape or group with clip-path (clipPath in defs, before or after its use), defs/specs/symbol content, shape with generated text}; border in {0,3,5}, scale in {0.5,1,2}; positions k/2 in [-256,256], sizes k/2 in [0,128]; loop / for / if children, arcs and curves and seeded random path command sequences, settings supplied through several <config> elements")
 ASSUMPTIONS = ["E is recomputed from the output's own geometry for rendered elements (by id) and from the input values for the invisible <box>; generated text, points, defs/specs/symbol content are not counted",
                "a clipped element contributes the intersection with its clip path's content box, nothing when that is empty",
                "derived dimension (one of width/height supplied): asserted with tolerance 0.002 + the 3-decimal output rounding, since the aspect-ratio division is inexact in f32"]
